@@ -86,7 +86,26 @@ def directed_from_levels(diffs):
             batch.append((w, sc))
     if not batch:
         return None
-    return evaluate_batch(batch, random.Random(0), True)
+    # several shuffles: the order-independence oracle (C06) needs the right permutation to expose a dependence
+    import check_main
+
+    return check_main.merge_streams([evaluate_batch(batch, random.Random(k), True) for k in range(8)])
+
+
+def directed_from_table(diffs):
+    """re-run the disagreeing table scenarios under several other registration / set orders (C06's metamorphic
+    oracle needs the right shuffle to expose an order dependence)"""
+    from world import World
+
+    outs = []
+    for d in diffs[:3]:
+        if d.get("layer") != "D" or "scenario" not in d or "scenario" not in d["scenario"]:
+            continue
+        w = World(d["scenario"]["world"])
+        sc = d["scenario"]["scenario"]
+        for k in range(8):
+            outs.append(evaluate_batch([(w, sc)], random.Random(1000 + k), True))
+    return outs
 
 
 def evaluate_batch(batch, rng, static_only):
@@ -202,7 +221,7 @@ def evaluate_batch(batch, rng, static_only):
             if stop_after:
                 break
         # ---- C06: other registration order / set orders give the same outcomes (static, distinct signatures)
-        if corr_ok and static_only and distinct_sigs(sc):
+        if static_only and distinct_sigs(sc):
             sc2 = permuted(sc, rng)
             try:
                 im2 = run_impl(w, sc2)
